@@ -37,6 +37,12 @@ Definition mon_split (i : mint_in) (o : mint_obs) : bool :=
   | Ok (f, b, _) => (f * P <=? mi_ratio i * (f + b)) && (mi_ratio i * (f + b) <? f * P + P)
   | _ => true end.
 
+(* nothing lost: fee part + bond part = the provision due (C13_mint_total_is_provision) *)
+Definition mon_total (i : mint_in) (o : mint_obs) : bool :=
+  match o, provision_of i with
+  | Ok (f, b, _), Some p => f + b =? (if 0 <? p then p else 0)
+  | _, _ => true end.
+
 Record conv_obs := {
   co_reverse : bool; co_amount : Z;
   co_pre : list Z;    (* holder bond, holder fee, holder other, module bond, module fee,
@@ -120,7 +126,20 @@ Definition mon_block_prorated (b : block_obs) : bool :=
   end &&
   (0 <=? bk_dfee b) && (0 <=? bk_dbond b) &&
   ((SUPPLY_CAP <? bk_fee b + bk_bond b) || (bk_fee b + bk_bond b + bk_dfee b + bk_dbond b <=? SUPPLY_CAP)) &&
-  ((bk_fee b + bk_bond b <=? SUPPLY_CAP) || ((bk_dfee b =? 0) && (bk_dbond b =? 0))).
+  ((bk_fee b + bk_bond b <=? SUPPLY_CAP) || ((bk_dfee b =? 0) && (bk_dbond b =? 0))) &&
+  (* nothing lost: a block in which the minute epoch began mints exactly the provision due since the
+     previous one (ghost time), split by the ratio *)
+  (if bk_epoch b then
+     match bk_prev_mint b with
+     | Some prev =>
+       match provision_of {| mi_fee_supply := bk_fee b; mi_bond_supply := bk_bond b; mi_last := Some prev;
+                             mi_now_ns := bk_now_ns b; mi_ratio := bk_ratio b |} with
+       | Some p => (bk_dfee b + bk_dbond b =? (if 0 <? p then p else 0)) &&
+                   (bk_dfee b * P <=? bk_ratio b * (bk_dfee b + bk_dbond b)) &&
+                   (bk_ratio b * (bk_dfee b + bk_dbond b) <? bk_dfee b * P + P)
+       | None => true end
+     | None => true end
+   else true).
 
 Inductive c13_case :=
 | CMintBlock (b : block_obs)
@@ -132,7 +151,7 @@ Definition c13_check (c : c13_case) : list Z :=
   match c with
   | CMint i o =>
       flag 0 (mint_corr i o) ++ flag 1 (mon_nonneg o) ++ flag 2 (mon_cap i o) ++
-      flag 3 (mon_prorated i o) ++ flag 4 (mon_split i o)
+      flag 3 (mon_prorated i o) ++ flag 4 (mon_split i o) ++ flag 5 (mon_total i o)
   | CConv c => flag 0 (conv_corr c) ++ flag 6 (mon_conv c)
   | CMintBlock b => flag 0 (block_corr b) ++ flag 8 (mon_block_prorated b)
   | CBan c => flag 0 (ban_corr c) ++ flag 7 (mon_ban c)
